@@ -28,13 +28,13 @@ def pFitTo (k : Nat) (b : Bytes) : Bytes := b.take k ++ zeros (k - b.length)
 def pCopyIn (k : Nat) (b : Bytes) : Piece := .put (pFitTo k b)
 
 /-- net.IP.To4(): a 4-byte address as is, a 16-byte v4-mapped address's last four bytes, otherwise nil -/
-def ipTo4? (ip : Bytes) : Option Bytes :=
+def pIpTo4? (ip : Bytes) : Option Bytes :=
   if ip.length == 4 then some ip
   else if ip.length == 16 && ip.take 10 == zeros 10 && ip[10]? == some 0xff && ip[11]? == some 0xff then some (ip.drop 12)
   else none
 
 /-- To4() used as the source of a `copy` (nil copies nothing) -/
-def ipTo4 (ip : Bytes) : Bytes := (ipTo4? ip).getD []
+def pIpTo4 (ip : Bytes) : Bytes := (pIpTo4? ip).getD []
 
 /-- net.IPv4(a,b,c,d): the 16-byte v4-mapped form -/
 def ipV4Mapped (a b c d : UInt8) : Bytes := zeros 10 ++ [0xff, 0xff, a, b, c, d]
@@ -106,7 +106,7 @@ def marshalM (v : V) : R (Bytes × V) :=
     let h := (n8 hl).toNat
     let p := (n8 pl).toNat
     let bs ← fill l.toNat [pU16 ht, pU16 pt, pU8 hl, pU8 pl, pU16 op,
-      pCopyIn h hs, pCopyIn p (ipTo4 ips), pCopyIn h hd, pCopyIn p (ipTo4 ipd)]
+      pCopyIn h hs, pCopyIn p (pIpTo4 ips), pCopyIn h hd, pCopyIn p (pIpTo4 ipd)]
     same bs v
   | _ => .panic
 def unmarshal (_recv : V) (data : Slice) : R V :=
@@ -238,7 +238,7 @@ def marshalM (v : V) : R (Bytes × V) :=
   match v with
   | .obj "p.IGMPv1or2" [.num ty, .num mrt, .num cs, .bytes g] => do
     let l ← len v
-    let bs ← fill l.toNat [pU8 ty, pU8 mrt, pU16 cs, pCopyIn 4 (ipTo4 g)]
+    let bs ← fill l.toNat [pU8 ty, pU8 mrt, pU16 cs, pCopyIn 4 (pIpTo4 g)]
     same bs v
   | _ => .panic
 def unmarshal (_recv : V) (data : Slice) : R V :=
@@ -286,8 +286,8 @@ def marshalM (v : V) : R (Bytes × V) :=
   | .obj "p.IGMPv3Query" [.num ty, .num mrt, .num cs, .bytes g, _, .num s, .num rv, .num it, .num ns, .list srcs] => do
     let l ← len v
     let ips ← pIpList srcs
-    let bs ← fill l.toNat ([pU8 ty, pU8 mrt, pU16 cs, pCopyIn 4 (ipTo4 g), .put [packSQRV (s != 0) (n8 rv)], pU8 it, pU16 ns]
-      ++ ips.map (fun ip => pCopyIn 4 (ipTo4 ip)))
+    let bs ← fill l.toNat ([pU8 ty, pU8 mrt, pU16 cs, pCopyIn 4 (pIpTo4 g), .put [packSQRV (s != 0) (n8 rv)], pU8 it, pU16 ns]
+      ++ ips.map (fun ip => pCopyIn 4 (pIpTo4 ip)))
     same bs v
   | _ => .panic
 def unmarshal (recv : V) (data : Slice) : R V :=
@@ -321,8 +321,8 @@ def bytes (v : V) : R Bytes :=
   | .obj "p.IGMPv3GroupRecord" [.num ty, .num aux, .num ns, .bytes mc, .list srcs, .list auxd] => do
     let l ← len v
     let ips ← pIpList srcs
-    fill l.toNat ([pU8 ty, pU8 aux, pU16 ns, pCopyIn 4 (ipTo4 mc)]
-      ++ ips.map (fun ip => pCopyIn 4 (ipTo4 ip)) ++ auxd.map (fun d => pU32 d.asNat))
+    fill l.toNat ([pU8 ty, pU8 aux, pU16 ns, pCopyIn 4 (pIpTo4 mc)]
+      ++ ips.map (fun ip => pCopyIn 4 (pIpTo4 ip)) ++ auxd.map (fun d => pU32 d.asNat))
   | _ => .panic
 def marshalM (v : V) : R (Bytes × V) := do let b ← bytes v; same b v
 def unmarshal (recv : V) (data : Slice) : R V :=
@@ -574,7 +574,7 @@ def marshalW (anyLen : V → R (UInt16 × V)) (anyMarshal : V → R (Bytes × V)
     let ob ← UBuffer.content opts
     let pre := [.put [packVerIHL (n8 ver) (n8 ihl)], .put [packDscpEcn (n8 dscp) (n8 ecn)], pU16 ln, pU16 ident,
       .put (be16 (packFlagsFrag (n16 fl) (n16 fo))), pU8 ttl, pU8 pr, pU16 cs,
-      pCopyAdv (ipTo4 src) 4, pCopyAdv (ipTo4 dst) 4, pCopy ob]
+      pCopyAdv (pIpTo4 src) 4, pCopyAdv (pIpTo4 dst) 4, pCopy ob]
     let buf ← fill l.toNat pre
     if dat.isNil then .ok (buf, v) else do
       let (b, dat') ← anyMarshal dat
@@ -1210,7 +1210,7 @@ def funcsProto : FuncTab := [
     | [.num t, .bytes d] => ret1 (PDhcpOpt.mk (n8 t) d)
     | _ => .panic),
   ("p.DHCPIP4Option", fun args => match args with
-    | [.num t, .bytes ip] => match ipTo4? ip with
+    | [.num t, .bytes ip] => match pIpTo4? ip with
       | some b => ret1 (PDhcpOpt.mk (n8 t) b)
       | none => .err
     | _ => .panic),
@@ -1218,7 +1218,7 @@ def funcsProto : FuncTab := [
     | [.num t, .list ips] => do
       let bs ← pIpList ips
       -- the first address that is not IPv4 sets err and stops the loop; the option is built anyway but err is returned
-      if bs.all (fun ip => (ipTo4? ip).isSome) then ret1 (PDhcpOpt.mk (n8 t) (bs.map ipTo4).flatten) else .err
+      if bs.all (fun ip => (pIpTo4? ip).isSome) then ret1 (PDhcpOpt.mk (n8 t) (bs.map pIpTo4).flatten) else .err
     | _ => .panic),
   ("p.DHCPMarshalOption", fun args => match args with
     | [o] => do let b ← PDhcpOpt.marshalOption o; ret1 (.bytes b)
